@@ -545,6 +545,7 @@ func (c *Check) doubleEntryHelper(fn *ssa.Function) {
 		return
 	}
 	cr := credits[0]
+	c.evenShareRule(name, fn, cr)
 	// total: either an accumulator phi over the credited amount, or (full blocks) rate-sum x same multiplier
 	var total ssa.Value
 	okTotal := false
@@ -865,4 +866,75 @@ func callerValue(v ssa.Value) ssa.Value {
 		v = a
 	}
 	return v
+}
+
+// evenShareRule: in the helper that splits a remainder evenly (its share is remainder / number of payees), every value a
+// payee can be credited is that share or that share plus one unit: "at most one further unit" per payee is visible in
+// the shape of the credited expression. A credit of share + <anything else> is a violation; a credit whose leaves
+// are of another form is not decided.
+func (c *Check) evenShareRule(name string, fn *ssa.Function, cr credit) {
+	if c.ID != "C02" {
+		return // who gets the remainder is a metering question; the sums other properties rely on are unaffected
+	}
+	var leaves []ssa.Value
+	var walk func(v ssa.Value, seen map[ssa.Value]bool)
+	walk = func(v ssa.Value, seen map[ssa.Value]bool) {
+		if seen[v] {
+			return
+		}
+		seen[v] = true
+		if ph, ok := v.(*ssa.Phi); ok {
+			for _, e := range ph.Edges {
+				walk(e, seen)
+			}
+			return
+		}
+		leaves = append(leaves, v)
+	}
+	walk(cr.amt, map[ssa.Value]bool{})
+	isShare := func(v ssa.Value) bool {
+		call, ok := v.(*ssa.Call)
+		if !ok || (calleeMethod(call) != "QuoRaw" && calleeMethod(call) != "Quo") || len(call.Call.Args) != 2 {
+			return false
+		}
+		return strings.Contains(Sym(call.Call.Args[1]), "builtin.len(p:payments)")
+	}
+	hasShare := false
+	for _, lf := range leaves {
+		if isShare(lf) {
+			hasShare = true
+		}
+		if call, ok := lf.(*ssa.Call); ok && len(call.Call.Args) == 2 && isShare(call.Call.Args[0]) {
+			hasShare = true
+		}
+	}
+	if !hasShare {
+		return // not the even-split helper
+	}
+	ok, undecided := true, ""
+	bad := ""
+	for _, lf := range leaves {
+		if isShare(lf) {
+			continue
+		}
+		call, isC := lf.(*ssa.Call)
+		if isC && len(call.Call.Args) == 2 && isShare(call.Call.Args[0]) && (calleeMethod(call) == "AddRaw" || calleeMethod(call) == "Add") {
+			inc := Sym(call.Call.Args[1])
+			if inc == "1" || inc == "types.OneInt()" || inc == "types.NewInt(1)" {
+				continue
+			}
+			ok = false
+			bad = short(Sym(lf))
+			continue
+		}
+		undecided = short(Sym(lf))
+	}
+	switch {
+	case !ok:
+		c.Ob("R4", name+": a payee is credited the even share or the even share plus one unit", cr.st.Pos(), false, "a payee can be credited "+bad+": more than one unit above the even share (the others get less than their entitlement)")
+	case undecided != "":
+		c.Info("R4", name+": even share plus at most one unit not decided", cr.st.Pos(), "credited value "+undecided+" is not of the form share / share+1")
+	default:
+		c.Ob("R4", name+": a payee is credited the even share or the even share plus one unit", cr.st.Pos(), true, "")
+	}
 }
